@@ -249,9 +249,193 @@ func extractC18(c *Ctx) error {
 	c.P("(* x/skyway/keeper/attestation.go: processAttestation *)")
 	c.P("Definition attestation_uses_cache_context : bool := %v.", usesCache)
 	c.P("Definition attestation_commit_only_on_success : bool := %v.", onlyOnSuccess)
+	if err := extractC18Round2(c, kf, mf, af, create, activate, sale); err != nil {
+		return err
+	}
 	c.Info("sale", fmt.Sprintf("x%s, %s months", mult, months))
 	c.Info("create_calls", seqCreate)
 	c.Info("activate_calls", seqAct)
 	c.Info("module_spend_sites", spend)
+	return nil
+}
+
+// collabSeq lists, in source order, the calls made through one of the keeper's collaborator
+// fields (k.accountKeeper / k.bankKeeper / k.feegrantKeeper) plus the calls of the named keeper
+// methods (so that a nested keeper function shows up at its place).
+func collabSeq(c *Ctx, fd *ast.FuncDecl, own ...string) []string {
+	ownSet := map[string]bool{}
+	for _, n := range own {
+		ownSet[n] = true
+	}
+	type pc struct {
+		pos  int
+		name string
+	}
+	var found []pc
+	ast.Inspect(fd.Body, func(x ast.Node) bool {
+		ce, ok := x.(*ast.CallExpr)
+		if !ok {
+			return true
+		}
+		se, ok := ce.Fun.(*ast.SelectorExpr)
+		if !ok {
+			return true
+		}
+		recv := c.Src(se.X)
+		switch recv {
+		case "k.accountKeeper", "k.bankKeeper", "k.feegrantKeeper":
+			found = append(found, pc{int(ce.Lparen), strings.TrimPrefix(recv, "k.") + "." + se.Sel.Name})
+		case "k":
+			if ownSet[se.Sel.Name] {
+				found = append(found, pc{int(ce.Lparen), "k." + se.Sel.Name})
+			}
+		}
+		return true
+	})
+	sort.Slice(found, func(i, j int) bool { return found[i].pos < found[j].pos })
+	out := make([]string, len(found))
+	for i, f := range found {
+		out[i] = f.name
+	}
+	return out
+}
+
+// second round: the collaborator call sequences the fault model numbers, the funder loop, legacy
+// clients, genesis, and the attestation machinery around the handler (TryAttestation / EndBlocker)
+func extractC18Round2(c *Ctx, kf, mf, af *ast.File, create, activate, sale *ast.FuncDecl) error {
+	c.P("(* ---- second round ---- *)")
+	c.P("(* calls through the AccountKeeper / BankKeeper / FeegrantKeeper interfaces, in source order *)")
+	c.P("Definition create_collab_calls : list string := %s.", CoqStrList(collabSeq(c, create)))
+	c.P("Definition activate_collab_calls : list string := %s.", CoqStrList(collabSeq(c, activate)))
+	c.P("Definition sale_collab_calls : list string := %s.", CoqStrList(collabSeq(c, sale, "CreateLightNodeClientLicense")))
+
+	// the funder loop: `for i := range funders.Accounts { if HasBalance(...) { funder = ... } }`
+	loops, breaks, loopBody := 0, 0, ""
+	ast.Inspect(sale.Body, func(n ast.Node) bool {
+		rs, ok := n.(*ast.RangeStmt)
+		if !ok || !strings.Contains(c.Src(rs.X), "funders.Accounts") {
+			return true
+		}
+		loops++
+		loopBody = strings.Join(strings.Fields(c.Src(rs.Body)), " ")
+		ast.Inspect(rs.Body, func(m ast.Node) bool {
+			if bs, ok := m.(*ast.BranchStmt); ok && bs.Tok.String() == "break" {
+				breaks++
+			}
+			if _, ok := m.(*ast.ReturnStmt); ok {
+				breaks++
+			}
+			return true
+		})
+		return true
+	})
+	if loops != 1 {
+		return fmt.Errorf("CreateSaleLightNodeClientLicense: expected one loop over funders.Accounts, found %d", loops)
+	}
+	c.P("Definition funder_loop_exits_early : bool := %v.", breaks > 0)
+	c.P("Definition funder_loop_body : string := %s.", CoqStr(loopBody))
+
+	// legacy clients
+	legacy := FindFunc(kf, "Keeper", "GetLegacyLightNodeClients")
+	setLegacy := FindFunc(mf, "msgServer", "SetLegacyLightNodeClients")
+	if legacy == nil || setLegacy == nil {
+		return fmt.Errorf("GetLegacyLightNodeClients / msgServer.SetLegacyLightNodeClients not found")
+	}
+	c.P("Definition legacy_calls : list string := %s.", CoqStrList(callSeq(legacy,
+		"LightNodeClientFeegranter", "AllLightNodeClientLicenses", "AllowancesByGranter", "GetLightNodeClient",
+		"SetLightNodeClient", "SetLightNodeClientLicense", "Delete", "SetAccount", "SendCoinsFromModuleToAccount", "SendCoinsFromAccountToModule")))
+	c.P("Definition set_legacy_calls : list string := %s.", CoqStrList(callSeq(setLegacy,
+		"GetLegacyLightNodeClients", "SetLightNodeClient", "SetLightNodeClientLicense", "Delete", "SetAccount",
+		"SendCoinsFromModuleToAccount", "SendCoinsFromAccountToModule")))
+	licCmp := ""
+	ast.Inspect(legacy.Body, func(n ast.Node) bool {
+		is, ok := n.(*ast.IfStmt)
+		if ok && strings.Contains(c.Src(is.Cond), "grant.Grantee") && strings.Contains(c.Src(is.Cond), "ClientAddress") {
+			licCmp = c.Src(is.Cond)
+		}
+		return true
+	})
+	c.P("Definition legacy_licence_test : string := %s.", CoqStr(licCmp))
+
+	// genesis
+	gf, err := c.Parse("x/paloma/genesis.go")
+	if err != nil {
+		return err
+	}
+	ig, eg := FindFunc(gf, "", "InitGenesis"), FindFunc(gf, "", "ExportGenesis")
+	if ig == nil || eg == nil {
+		return fmt.Errorf("x/paloma InitGenesis / ExportGenesis not found")
+	}
+	c.P("(* x/paloma/genesis.go *)")
+	c.P("Definition init_genesis_calls : list string := %s.", CoqStrList(callSeq(ig, "SetParams", "SetLightNodeClientLicense",
+		"SetLightNodeClientFeegranter", "SetLightNodeClientFunders", "SetLightNodeClient", "CreateLightNodeClientLicense",
+		"SetAccount", "SendCoinsFromAccountToModule", "MintCoins")))
+	c.P("Definition export_genesis_calls : list string := %s.", CoqStrList(callSeq(eg, "GetParams", "AllLightNodeClientLicenses",
+		"LightNodeClientFeegranter", "LightNodeClientFunders", "AllLightNodeClients")))
+	licKey := ""
+	for _, cl := range Calls(ig.Body, "SetLightNodeClientLicense") {
+		if len(cl.Args) == 3 {
+			licKey = c.Src(cl.Args[1]) + " | " + c.Src(cl.Args[2])
+		}
+	}
+	c.P("Definition init_genesis_licence_args : string := %s.", CoqStr(licKey))
+	tf, err := c.Parse("x/paloma/types/genesis.go")
+	if err != nil {
+		return err
+	}
+	val := FindFunc(tf, "GenesisState", "Validate")
+	if val == nil {
+		return fmt.Errorf("GenesisState.Validate not found")
+	}
+	c.P("Definition genesis_validate_body : string := %s.", CoqStr(strings.Join(strings.Fields(c.Src(val.Body)), " ")))
+
+	// the attestation machinery: writes of TryAttestation before the handler, its only caller, the recover
+	try := FindFunc(af, "Keeper", "TryAttestation")
+	if try == nil {
+		return fmt.Errorf("TryAttestation not found")
+	}
+	c.P("(* x/skyway/keeper/attestation.go: TryAttestation *)")
+	c.P("Definition try_attestation_calls : list string := %s.", CoqStrList(callSeq(try, "SetLastObservedEthereumBlockHeight",
+		"setLastObservedSkywayNonce", "SetAttestation", "processAttestation", "emitObservedEvent", "CacheContext")))
+	sk, err := c.ParseDir("x/skyway")
+	if err != nil {
+		return err
+	}
+	skk, err := c.ParseDir("x/skyway/keeper")
+	if err != nil {
+		return err
+	}
+	var callers []string
+	for _, f := range append(sk, skk...) {
+		for _, d := range f.Decls {
+			fd, ok := d.(*ast.FuncDecl)
+			if !ok || fd.Body == nil {
+				continue
+			}
+			for range Calls(fd.Body, "TryAttestation") {
+				callers = append(callers, fd.Name.Name)
+			}
+		}
+	}
+	sort.Strings(callers)
+	c.P("Definition try_attestation_callers : list string := %s.", CoqStrList(callers))
+	abci, err := c.Parse("x/skyway/abci.go")
+	if err != nil {
+		return err
+	}
+	eb := FindFunc(abci, "", "EndBlocker")
+	if eb == nil {
+		return fmt.Errorf("skyway EndBlocker not found")
+	}
+	recovers := false
+	for _, st := range eb.Body.List {
+		ds, ok := st.(*ast.DeferStmt)
+		if ok && len(Calls(ds, "recover")) == 1 {
+			recovers = true
+		}
+	}
+	c.P("(* x/skyway/abci.go *)")
+	c.P("Definition endblocker_defers_recover : bool := %v.", recovers)
+	c.P("Definition endblocker_calls : list string := %s.", CoqStrList(callSeq(eb, "createBatch", "attestationTally", "pruneAttestations", "CacheContext")))
 	return nil
 }
